@@ -40,6 +40,7 @@ import (
 	"k8s.io/apimachinery/pkg/types"
 	k8sfeature "k8s.io/apiserver/pkg/util/feature"
 	"k8s.io/component-base/featuregate"
+	apiresource "k8s.io/component-helpers/resource"
 	"k8s.io/klog/v2"
 
 	"github.com/koordinator-sh/koordinator/apis/extension"
@@ -79,6 +80,11 @@ type c19Group struct {
 	name, parent string
 	isParent     bool
 	ext          bool // declares the extended resource
+	noMem        bool // does not declare memory (a pod's memory is then not accounted in this group's subtree)
+	smallMax     bool // a max that real use exceeds (accounting is not limited by it)
+	min          int64
+	weight       int
+	noLent       bool
 }
 
 func (g *c19Group) object(rv int) *v1alpha1.ElasticQuota {
@@ -86,12 +92,27 @@ func (g *c19Group) object(rv int) *v1alpha1.ElasticQuota {
 	if g.ext {
 		huge[c19Ext] = *resource.NewQuantity(1<<40, resource.DecimalSI)
 	}
+	if g.smallMax {
+		huge[v1.ResourceCPU] = *resource.NewQuantity(2, resource.DecimalSI)
+	}
+	if g.noMem {
+		delete(huge, v1.ResourceMemory)
+	}
 	q := &v1alpha1.ElasticQuota{
 		ObjectMeta: metav1.ObjectMeta{Name: g.name, Namespace: "ns", ResourceVersion: fmt.Sprint(rv), Labels: map[string]string{extension.LabelQuotaParent: g.parent}, Annotations: map[string]string{}},
 		Spec:       v1alpha1.ElasticQuotaSpec{Max: huge, Min: v1.ResourceList{}},
 	}
+	if g.min > 0 {
+		q.Spec.Min[v1.ResourceCPU] = *resource.NewQuantity(g.min, resource.DecimalSI)
+	}
 	if g.isParent {
 		q.Labels[extension.LabelQuotaIsParent] = "true"
+	}
+	if g.noLent {
+		q.Labels[extension.LabelAllowLentResource] = "false"
+	}
+	if g.weight > 0 {
+		q.Annotations[extension.AnnotationSharedWeight] = fmt.Sprintf(`{"cpu":%d,"memory":%d}`, g.weight, g.weight*7)
 	}
 	return q
 }
@@ -179,9 +200,13 @@ func c19Diff(a, b v1.ResourceList) (string, string, string, int) {
 func TestVerifC19QuotaRestart(t *testing.T) {
 	defer c19PinGates()()
 	kit.Run(t, kit.Config{Property: "C19", Unit: "quota-restart", Quick: 3000, Thorough: 60000,
-		Rule: "a quota tree of 3-6 groups (0-2 parents, some declaring an extended resource) in a real GroupQuotaManager and 20-70 operations over 4-12 pods: create (OnPodAdd), reserve (ReservePod), bind, unreserve, touch, terminate, delete, informer echo (OnPodUpdate/OnPodDelete) as the elasticquota plugin issues them; cut after a bind; reserved-but-unbound pods unreserved; a fresh manager gets the quotas, then every surviving pod through OnPodAdd in random order with 20% duplicate adds and 20% no-op updates, then watch events after the snapshot; used / non-preemptible used per group compared with the live manager's and with the sum over the surviving bound pods; distinct = (#groups, depth, pod state mix class, non-preemptible?, ext?, event kind); non-trivial = at least two bound survivors in one group and a terminated or deleted pod"},
+		Rule: "a quota tree of 1-8 groups (0-3 nested parents, depth up to 4; some declaring an extended resource, some not declaring memory; min, small max, shared weight, no-lent; default and system group as targets) in a real GroupQuotaManager and 20-70 operations over 4-12 pods: create (OnPodAdd), reserve (ReservePod), bind, unreserve, touch, terminate, delete, informer echo (OnPodUpdate/OnPodDelete) as the elasticquota plugin issues them; cut after a bind; reserved-but-unbound pods unreserved; a fresh manager gets the quotas, then every surviving pod through OnPodAdd in random order with 20% duplicate adds and 20% no-op updates, then watch events after the snapshot; used / non-preemptible used per group compared with the live manager's and with the sum over the surviving bound pods; distinct = (#groups, depth, pod state mix class, non-preemptible?, ext?, event kind); non-trivial = at least two bound survivors in one group and a terminated or deleted pod"},
 		func(c *kit.Case) {
 			r := c.R
+			// ElasticQuotaIgnorePodOverhead changes what a pod's request is; both managers run under the same value
+			ignoreOverhead := r.Pct(15)
+			_ = k8sfeature.DefaultMutableFeatureGate.Set(fmt.Sprintf("%s=%v", features.ElasticQuotaIgnorePodOverhead, ignoreOverhead))
+			maxPods := kit.Pick(r, []int{12, 12, 12, 20})
 			newMgr := func() *GroupQuotaManager {
 				huge := v1.ResourceList{v1.ResourceCPU: *resource.NewQuantity(1<<50, resource.DecimalSI), v1.ResourceMemory: *resource.NewQuantity(1<<60, resource.BinarySI), c19Ext: *resource.NewQuantity(1<<50, resource.DecimalSI)}
 				return NewGroupQuotaManager("", r.Bool(), huge, huge)
@@ -189,16 +214,27 @@ func TestVerifC19QuotaRestart(t *testing.T) {
 			live := newMgr()
 			// ---- quota tree
 			var groups []*c19Group
-			nparents := r.Range(0, 2)
-			ngroups := r.Range(3, 6)
+			ngroups := kit.Pick(r, []int{1, 2, 3, 3, 4, 4, 5, 6, 6, 8})
+			nparents := c19Min(r.Range(0, 3), ngroups-1)
 			for i := 0; i < ngroups; i++ {
 				g := &c19Group{name: fmt.Sprintf("q%d", i), parent: extension.RootQuotaName, isParent: i < nparents, ext: r.Pct(40)}
 				if i > 0 && nparents > 0 && r.Pct(70) {
-					g.parent = groups[r.Intn(c19Min(i, nparents))].name
-					if g.parent == g.name {
-						g.parent = extension.RootQuotaName
-					}
+					g.parent = groups[r.Intn(c19Min(i, nparents))].name // parents may nest: depth up to 4
 				}
+				if !g.isParent {
+					g.noMem = r.Pct(12)
+					g.smallMax = r.Pct(25)
+				}
+				if r.Pct(25) {
+					g.min = 1 // small enough to satisfy min <= max and sum(children) <= parent in every tree drawn here
+				}
+				if g.isParent && r.Pct(50) {
+					g.min = 16
+				}
+				if r.Pct(25) {
+					g.weight = r.Range(1, 9)
+				}
+				g.noLent = r.Pct(20)
 				groups = append(groups, g)
 			}
 			byName := map[string]*c19Group{}
@@ -213,13 +249,19 @@ func TestVerifC19QuotaRestart(t *testing.T) {
 					leaves = append(leaves, g.name)
 				}
 			}
-			if r.Pct(30) {
+			if r.Pct(30) || len(leaves) == 0 {
 				leaves = append(leaves, extension.DefaultQuotaName)
+			}
+			if r.Pct(10) {
+				leaves = append(leaves, extension.SystemQuotaName)
 			}
 			declared := func(name string) map[v1.ResourceName]bool {
 				m := map[v1.ResourceName]bool{v1.ResourceCPU: true, v1.ResourceMemory: true}
 				if g := byName[name]; g == nil || g.ext {
 					m[c19Ext] = true
+				}
+				if g := byName[name]; g != nil && g.noMem {
+					delete(m, v1.ResourceMemory)
 				}
 				return m
 			}
@@ -238,6 +280,9 @@ func TestVerifC19QuotaRestart(t *testing.T) {
 				p := &c19Pod{name: fmt.Sprintf("p%d", seq), group: kit.Pick(r, leaves), nonPre: r.Pct(20)}
 				seq++
 				p.req = v1.ResourceList{v1.ResourceCPU: *resource.NewMilliQuantity(kit.Pick(r, []int64{1, 250, 500, 1000, 1500, 4000, 64000}), resource.DecimalSI)}
+				if r.Pct(5) {
+					p.req = v1.ResourceList{} // a pod that requests nothing
+				}
 				if r.Pct(70) {
 					p.req[v1.ResourceMemory] = *resource.NewQuantity(kit.Pick(r, []int64{1, 1 << 20, 1<<30 + 1, 3 << 30, 1 << 40}), resource.BinarySI)
 				}
@@ -252,6 +297,18 @@ func TestVerifC19QuotaRestart(t *testing.T) {
 					ObjectMeta: metav1.ObjectMeta{Namespace: "ns", Name: p.name, UID: types.UID("uid-" + p.name), ResourceVersion: "1", Labels: labels},
 					Spec:       v1.PodSpec{Containers: []v1.Container{{Name: "main", Resources: v1.ResourceRequirements{Requests: p.req.DeepCopy(), Limits: p.req.DeepCopy()}}}},
 				}
+				if len(p.req) > 0 && r.Pct(20) {
+					side := v1.ResourceList{v1.ResourceCPU: *resource.NewMilliQuantity(100, resource.DecimalSI)}
+					p.pending.Spec.Containers = append(p.pending.Spec.Containers, v1.Container{Name: "side", Resources: v1.ResourceRequirements{Requests: side}})
+				}
+				if r.Pct(10) {
+					p.pending.Spec.InitContainers = []v1.Container{{Name: "init", Resources: v1.ResourceRequirements{Requests: v1.ResourceList{v1.ResourceCPU: *resource.NewQuantity(128, resource.DecimalSI)}}}} // larger than the app containers: it defines the pod's cpu request
+				}
+				if r.Pct(10) {
+					p.pending.Spec.Overhead = v1.ResourceList{v1.ResourceCPU: *resource.NewMilliQuantity(50, resource.DecimalSI), v1.ResourceMemory: *resource.NewQuantity(1<<20, resource.BinarySI)}
+				}
+				// the pod's request by the Kubernetes rule (sum of containers, max with init containers, plus overhead)
+				p.req = apiresource.PodRequests(p.pending, apiresource.PodResourcesOptions{ExcludeOverhead: ignoreOverhead})
 				pods = append(pods, p)
 				live.OnPodAdd(p.group, p.pending)
 				c.Op("create pod %s in %s req=%s nonPreemptible=%v (OnPodAdd)", p.name, p.group, c19RL(p.req), p.nonPre)
@@ -312,9 +369,24 @@ func TestVerifC19QuotaRestart(t *testing.T) {
 			}
 			nops := r.Range(20, 70)
 			for op := 0; op < nops; op++ {
-				switch r.Weighted(14, 26, 10, 6, 14, 10, 10, 10) {
+				switch r.Weighted(14, 26, 10, 6, 14, 10, 10, 10, 4) {
+				case 8: // the pod's quota label is changed while it runs: it moves to another group
+					if p := pick(func(p *c19Pod) bool { return p.state == c19Bound }); p != nil && len(leaves) > 1 {
+						to := kit.Pick(r, leaves)
+						if to == p.group {
+							break
+						}
+						echo(p, len(p.versions)) // events of one pod arrive in order
+						prev := p.latest()
+						next(p, func(nv *v1.Pod) { nv.Labels[extension.LabelQuotaName] = to })
+						live.OnPodUpdate(to, p.group, p.latest(), prev)
+						c.Op("api: relabel %s from %s to %s -> version %d (OnPodUpdate with two quota names)", p.name, p.group, to, len(p.versions))
+						p.group = to
+						p.echoed = len(p.versions)
+						c.Count("pods_relabelled_to_another_group", 1)
+					}
 				case 0:
-					if len(pods) < 12 {
+					if len(pods) < maxPods {
 						newPod()
 					}
 				case 1: // reserve (+ usually bind)
@@ -348,7 +420,13 @@ func TestVerifC19QuotaRestart(t *testing.T) {
 					}
 				case 5:
 					if p := pick(func(p *c19Pod) bool { return p.state == c19Bound }); p != nil {
-						next(p, func(nv *v1.Pod) { nv.Labels["touched"] = nv.ResourceVersion })
+						next(p, func(nv *v1.Pod) {
+							nv.Labels["touched"] = nv.ResourceVersion
+							if r.Pct(12) && nv.DeletionTimestamp == nil {
+								ts := metav1.Unix(1700000000, 0) // terminating; with the ignore-terminating gates off it counts like any pod
+								nv.DeletionTimestamp = &ts
+							}
+						})
 						c.Op("api: touch %s -> version %d", p.name, len(p.versions))
 					}
 				case 6:
